@@ -7,7 +7,7 @@ import (
 
 func main() {
 	hx.Main("c10", func(cfg *hx.RunCfg) (*hx.Result, error) {
-		res, err := protox.Run(protox.Mode{Prop: "C10", Faults: true, FailAfter: true, ShapesQuick: 24, ShapesThor: 150, MaxFaults: 14}, cfg, protox.EmitCoq)
+		res, err := protox.Run(protox.Mode{Prop: "C10", Faults: true, FailAfter: true, ShapesQuick: 24, ShapesThor: 45, MaxFaults: 14}, cfg, protox.EmitCoq)
 		if res != nil {
 			res.Imports = []string{"Lib.Bytes", "Proto", "Corr.Proto"}
 			res.CaseType = "protocase"
